@@ -922,6 +922,8 @@ pub fn merge_tool_cases(quick: bool) -> Vec<MergeTool> {
             }
         }
     }
+    // one input with 70 010 runs merged with itself, sections of up to 70 000 items asked for
+    v.push(MergeTool { inputs: vec![], clip: None, adjust: None, threshold: None, output: s("out.bw"), output_type: None, ucsc: false, input_style: 0, many: 70_010 });
     // 700 inputs with inexact sums, default threads against -t 1 and -t 16
     for o in ["out.bedGraph", "out.bw"] {
         v.push(MergeTool { inputs: vec![], clip: None, adjust: None, threshold: None, output: s(o), output_type: None, ucsc: false, input_style: 1, many: 700 });
@@ -936,7 +938,71 @@ pub fn merge_tool_cases(quick: bool) -> Vec<MergeTool> {
     v
 }
 
+/// `bigwigmerge --items-per-slot 70000` on a chromosome with 70 010 runs: the bigWig must hold what
+/// the bedGraph output of the same merge holds (a section count kept in 16 bits would not).
+fn c15_big_slots(out: &mut Outcome) {
+    let wd = workdir();
+    let dir = wd.path();
+    let spec = EncSpec {
+        bed: false,
+        le: true,
+        compress: true,
+        version: 4,
+        chroms: vec![EncChrom { name: s("chr1"), size: 400_000, wig: (0..71u32).map(|k| WigSec::T1((0..if k == 70 { 10u32 } else { 1000 }).map(|i| (4 * (1000 * k + i), 4 * (1000 * k + i) + 2, ((i + k) % 7) as f32 + 0.5)).collect())).collect(), bed: vec![] }],
+        chrom_block: 64,
+        chrom_level_order: false,
+        chrom_ids_in_given_order: false,
+        chrom_ids_reverse_of_keys: false,
+        fanout: 64,
+        placement: Placement::LevelOrder,
+        zooms: vec![],
+        zoom_ips: 4,
+        zoom_blocks_span_chroms: false,
+        trailing_magic: true,
+        index_last: false,
+        no_summary: false,
+        autosql: None,
+    };
+    std::fs::write(dir.join("a.bw"), encode(&spec).bytes).unwrap();
+    let tags = vec![s("items_per_slot_70000")];
+    let mut counts = vec![];
+    for o in ["out.bedGraph", "out.bw"] {
+        let argv = vec![s("bigwigmerge"), s("-b"), s("a.bw"), s("-b"), s("a.bw"), s(o), s("--items-per-slot"), s("70000")];
+        let r = run_in(dir, &argv);
+        out.count("tool_merge_runs", 1);
+        out.count("tool_merge_runs_with_items_per_slot_70000", 1);
+        if r.timed_out || r.code != Some(0) {
+            out.fail("merge_tool_produced_no_output", &tags, format!("{:?}: exit {:?} stderr {}", argv, r.code, r.stderr.chars().take(300).collect::<String>()));
+            return;
+        }
+        if o.ends_with(".bw") {
+            match indep::decode(&std::fs::read(dir.join(o)).unwrap_or_default()) {
+                Err(e) => {
+                    out.fail("merge_tool_output_malformed", &tags, format!("{:?}: {}", argv, e));
+                    return;
+                }
+                Ok(d) => {
+                    for p in d.problems.iter().take(2) {
+                        out.fail("merge_tool_output_malformed", &tags, format!("{:?}: {}", argv, p));
+                    }
+                    // what the library's reader serves
+                    let served = guarded(|| BigWigRead::open_file(dir.join(o).to_str().unwrap()).ok().and_then(|mut r| r.get_interval("chr1", 0, 400_000).ok().map(|it| it.filter(|x| x.is_ok()).count()))).ok().flatten().unwrap_or(0);
+                    counts.push(served);
+                }
+            }
+        } else {
+            counts.push(std::fs::read_to_string(dir.join(o)).unwrap_or_default().lines().count());
+        }
+    }
+    if counts.len() == 2 && (counts[0] != counts[1] || counts[0] != 70_010) {
+        out.fail("merge_differs_from_per_base_sum", &tags, format!("bigwigmerge --items-per-slot 70000: {} runs in the bedGraph output, {} served from the bigWig output, the input has 70010", counts[0], counts[1]));
+    }
+}
+
 pub fn c15_tool(t: &MergeTool, out: &mut Outcome) {
+    if t.many == 70_010 {
+        return c15_big_slots(out);
+    }
     let wd = workdir();
     let dir = wd.path();
     if let Some(parent) = std::path::Path::new(&t.output).parent() {
@@ -1582,6 +1648,12 @@ pub fn c19_tool_wide(extra: usize, width: usize, supplied: Option<(String, usize
     std::fs::write(dir.join("in.bed"), &bed).unwrap();
     std::fs::write(dir.join("sizes"), "chr1\t100\nchr2\t50\n").unwrap();
     let mut argv = vec![s("bedtobigbed"), s(stdin.unwrap_or("in.bed")), s("sizes"), s("out.bb"), s("-t"), threads.to_string()];
+    // a manual zoom list longer than the number of zoom levels asked for (the list wins): the schema
+    // sits right behind the zoom directory of the header
+    if extra % 4 == 1 {
+        argv.extend([s("--nzooms"), s((extra % 3).to_string().as_str()), s("--zooms"), s("10,40,160")]);
+        out.count("tool_schema_runs_with_nzooms_and_zooms", 1);
+    }
     let mut tags = vec![if supplied.is_some() { s("supplied_schema") } else { s("generated_schema") }];
     if stdin.is_some() {
         tags.push(s("bed_from_stdin"));
